@@ -49,7 +49,7 @@ import_ckl()
 # the pool, in the order of Forms.tla (`Pool`): tag -> constructor
 POOL_TAGS = ["null", "true", "i0", "ineg", "i2", "big", "d0", "dneg", "sempty", "sa", "s12",
              "date", "pat", "lempty", "l2", "setempty", "set1", "mapempty", "map1", "obj",
-             "lambda", "native", "input", "output"]
+             "lambda", "native", "input", "output", "false"]
 # additional values of the sandboxed non-secure sweep (file-like / command-like arguments)
 SANDBOX_TAGS = ["s_true", "s_file", "s_dir", "l_echo"]
 
@@ -91,10 +91,19 @@ GRAPH_SRC = {
 }
 EXTRA_SRC.update(GRAPH_SRC)
 EXTRA_TAGS = sorted(EXTRA_SRC)
-HUGE_TAGS = ("big", "x_ihuge", "x_i5000")      # replaced by 10^4 in the scaled re-run
+# The ints whose magnitude no loop can count up to.  A case holding one that does not end is re-run with
+# stand-ins of increasing magnitude (LEVELS; the three keep their order: rank * level).  The case is excused
+# only when the stand-in runs all end AND show that the RESULT grows with the number (no implementation can
+# be faster than its output: range(2^70), pow(2, 2^70)), or when another case of the same site with the huge
+# ints at the same argument positions has shown that (choices([], 2^70) fails only after range(2^70)).
+HUGE_TAGS = ("big", "x_ihuge", "x_i5000")
+HUGE_RANK = {"big": 1, "x_ihuge": 2, "x_i5000": 3}
+LEVELS = (1000, 10000)
+GROWTH = 5          # result size at the larger level >= GROWTH * size at the smaller one (Natives_Trace!Growth)
 
-ALARM_S = 2
+ALARM_S = 2            # processor seconds of the worker (ITIMER_PROF): the load of the machine does not count
 ISOLATED_S = 10
+WALL_FACTOR = 20       # wall-clock backstop (a case that waits instead of computing): limit * WALL_FACTOR seconds
 MODULES = None
 
 
@@ -118,6 +127,21 @@ def tlc(*a, **kw):
 
 def _on_alarm(signum, frame):
     raise Timeout()
+
+
+def _arm(limit):
+    """the bound of one evaluation: `limit` seconds of processor time of this process (user + system), so
+    that a crowded machine does not turn a short case into a "timeout"; a wall-clock alarm far beyond it
+    ends a case that waits (for input, for a child process) instead of computing"""
+    signal.signal(signal.SIGALRM, _on_alarm)
+    signal.signal(signal.SIGPROF, _on_alarm)
+    signal.setitimer(signal.ITIMER_PROF, limit)
+    signal.alarm(limit * WALL_FACTOR)
+
+
+def _disarm():
+    signal.setitimer(signal.ITIMER_PROF, 0)
+    signal.alarm(0)
 
 
 # ------------------------------------------------------------------ worker side
@@ -216,8 +240,10 @@ class World:
             return V.ValueInt(2)
         if tag == "big":
             return V.ValueInt(2 ** 70)
-        if tag == "scaled-big":          # stands in for 2^70 in the scaled re-run
-            return V.ValueInt(10 ** 4)
+        if tag == "false":
+            return V.FALSE
+        if tag.startswith("scaled:"):    # stands in for a huge int in the scaled re-runs
+            return V.ValueInt(int(tag[7:]))
         if tag == "d0":
             return V.ValueDecimal(0.0)
         if tag == "dneg":
@@ -285,31 +311,39 @@ class World:
         os.mkdir(os.path.join(sb, "d"))
 
     # -- one evaluation -----------------------------------------------------
-    def evaluate(self, ikey, src, bindings, limit):
-        """-> outcome string.  value | error:ok | error:<defect> | host:<Class>
-        | syntax | badvalue:<pytype> | timeout"""
+    def evaluate(self, ikey, src, bindings, limit, measure=False):
+        """-> (outcome, detail, size).  outcome: value | error:ok | error:<defect> | host:<Class>
+        | syntax | badvalue:<pytype> | timeout; size: how large the resulting value is (only when
+        `measure`, only for a value; -1 otherwise)"""
         V = self.V
         from ckl.errors import CklRuntimeError, CklSyntaxError
         it = self.interps[ikey]
         env = self.F.Environment()
         for k, v in bindings.items():
             env.put(k, v)
-        signal.signal(signal.SIGALRM, _on_alarm)
-        signal.alarm(limit)
         detail = ""
+        size = -1
         try:
+            _arm(limit)
             try:
                 r = it.interpret(src, "c13", env)
                 out = "value" if isinstance(r, V.Value) else "badvalue:" + type(r).__name__
+                if measure == "ints" and out == "value":
+                    size = ints_of(r)
+                elif measure and out == "value":
+                    size = size_of(r)
             finally:
-                signal.alarm(0)
+                _disarm()
         except Timeout:
-            return "timeout", ""
+            _disarm()
+            return "timeout", "", -1
         except CklRuntimeError as e:
             if isinstance(e.value, V.Value):
                 out = "error:ok"
                 if isinstance(e.msg, str) and e.msg == "Too many arguments":
                     detail = "too-many"
+                elif isinstance(e.msg, str) and e.msg.startswith("Missing argument"):
+                    detail = "missing"
             else:
                 out = "error:value-is-" + type(e.value).__name__
                 detail = str(e.msg)[:100]
@@ -321,11 +355,63 @@ class World:
             out = "host:MemoryError"
         except Exception as e:  # noqa: BLE001 - observing what escapes is the point
             out, detail = "host:" + type(e).__name__, str(e)[:100]
-        return out, detail
+        return out, detail, size
+
+
+def ints_of(v):
+    """a list of ints as Python ints (the result of the probe function of the call shapes); None when the
+    value does not show its content the expected way (then nothing is compared)"""
+    try:
+        got = [x.value for x in v.value]
+        return got if all(type(x) is int for x in got) else None
+    except Exception:  # noqa: BLE001
+        return None
+
+
+def size_of(v):
+    """how large a value is: elements of a collection, characters of a string, bits of an int; what has no
+    such measure (or does not show it the expected way) is measured by the length of its rendering.
+    Used only on the stand-in runs of a case that did not end (see Sweep.execute)."""
+    try:
+        if v.isList() or v.isSet() or v.isMap() or v.isObject() or v.isString():
+            return min(len(v.value), 10 ** 9)
+        if v.isInt():
+            return min(abs(v.value).bit_length(), 10 ** 9)
+    except Exception:  # noqa: BLE001 - a refactored value class must not break the check
+        pass
+    return min(len(str(v)), 10 ** 9)
 
 
 _W = None
 _DEVNULL = None
+_LINES = set()         # lines of nodes.py executed by this worker and not yet handed to the parent
+
+
+def _watch_lines():
+    """Round 3 cross-check of binding A: which lines of nodes.py do the cases execute?  (sys.monitoring:
+    every location reports once and is switched off.)  The parent compares them with the guard sites of
+    the evaluation nodes (`raise CklRuntimeError`): a guard no case reaches is a guard the check cannot
+    miss - it is listed in the evidence.  Purely diagnostic; any failure here leaves the check as it was."""
+    try:
+        mon = sys.monitoring
+        target = os.path.join(REPO, "src", "ckl", "nodes.py")
+        mon.use_tool_id(mon.COVERAGE_ID, "c13")
+
+        def on_line(code, line):
+            if code.co_filename == target:
+                _LINES.add(line)
+            return mon.DISABLE
+
+        mon.register_callback(mon.COVERAGE_ID, mon.events.LINE, on_line)
+        mon.set_events(mon.COVERAGE_ID, mon.events.LINE)
+    except Exception:  # noqa: BLE001
+        pass
+
+
+def _take_lines():
+    got = sorted(_LINES)
+    _LINES.clear()
+    return got
 
 
 def _init_worker(sandbox):
@@ -345,7 +431,13 @@ def _init_worker(sandbox):
         os.environ["HOME"] = sandbox
         sandbox = tempfile.mkdtemp(prefix="w-", dir=sandbox)
         os.chdir(sandbox)
+    _watch_lines()
     _W = World(sandbox)
+    try:                    # what building the interpreters executed does not count as a case
+        sys.monitoring.restart_events()
+    except Exception:  # noqa: BLE001
+        pass
+    _LINES.clear()
 
 
 def _rebuild():
@@ -353,64 +445,69 @@ def _rebuild():
     _W = World(_W.sandbox)
 
 
-def call_src(n):
-    return "f__(" + ", ".join(f"p{i}" for i in range(n)) + ")"
+def call_src(names):
+    """the call of f__ with one argument per entry of names: positional where the entry is '', bound by
+    name otherwise (FormsCall.tla decides which shapes are run)"""
+    return "f__(" + ", ".join((f"{nm} = p{i}" if nm else f"p{i}") for i, nm in enumerate(names)) + ")"
 
 
-def run_one(job, limit=ALARM_S):
-    """job = ("form", text, tags) | ("fn", site, tags) -> (outcome, detail, caught)"""
+def split_site(what):
+    """'base:find_last(_,_,start=_)' -> ('base:find_last', ['', '', 'start']); a plain site -> (site, None)"""
+    if "(" not in what:
+        return what, None
+    site, shape = what[:-1].split("(", 1)
+    return site, [("" if a == "_" else a[:-2]) for a in shape.split(",")] if shape else []
+
+
+def shaped_site(site, names):
+    return site + "(" + ",".join((nm + "=_") if nm else "_" for nm in names) + ")"
+
+
+def _prepare(job):
+    """job = ("form", text, tags) | ("fn", site or site(shape), tags) | ("prog", text, description)
+    -> (interpreter key, bindings, source)"""
     kind, what, tags = job
     w = _W
     if kind == "fn":
-        ikey, fn = w.sites[what]
+        site, names = split_site(what)
+        ikey, fn = w.sites[site]
         if ikey == "nonsecure":
             w.reset_sandbox()
         b = {f"p{i}": w.make(t) for i, t in enumerate(tags)}
         b["f__"] = fn
-        src = call_src(len(tags))
-    elif kind == "prog":             # a whole program of FormsGraph.tla; tags only describe it
-        ikey, b, src = "base", {}, what
-    else:
-        ikey = "base"
-        b = {f"p{i}": w.make(t) for i, t in enumerate(tags)}
-        src = what
-    out, detail = w.evaluate(ikey, src, b, limit)
+        return ikey, b, call_src(names if names is not None else [""] * len(tags))
+    if kind == "prog":               # a whole program of FormsGraph.tla / FormsCall.tla; tags only describe it
+        return "base", {}, what
+    return "base", {f"p{i}": w.make(t) for i, t in enumerate(tags)}, what
+
+
+def run_one(job, limit=ALARM_S, measure=False):
+    """-> (outcome, detail, size)"""
+    ikey, b, src = _prepare(job)
+    out, detail, size = _W.evaluate(ikey, src, b, limit, measure)
     if out == "timeout":
         _rebuild()
-    return out, detail
+    return out, detail, size
 
 
 def run_caught(job, limit=ALARM_S):
-    """the same evaluation inside `do ... catch all 'caught' end`"""
-    kind, what, tags = job
+    """the same evaluation inside `do ... catch all 'c13-caught' end`"""
+    ikey, b, src = _prepare(job)
     w = _W
-    if kind == "fn":
-        ikey, fn = w.sites[what]
-        if ikey == "nonsecure":
-            w.reset_sandbox()
-        b = {f"p{i}": w.make(t) for i, t in enumerate(tags)}
-        b["f__"] = fn
-        src = call_src(len(tags))
-    elif kind == "prog":
-        ikey, b, src = "base", {}, what
-    else:
-        ikey = "base"
-        b = {f"p{i}": w.make(t) for i, t in enumerate(tags)}
-        src = what
     src = "do " + src + " catch all 'c13-caught' end"
     V = w.V
     it = w.interps[ikey]
     env = w.F.Environment()
     for k, v in b.items():
         env.put(k, v)
-    signal.signal(signal.SIGALRM, _on_alarm)
-    signal.alarm(limit)
     try:
+        _arm(limit)
         try:
             r = it.interpret(src, "c13", env)
         finally:
-            signal.alarm(0)
+            _disarm()
     except Timeout:
+        _disarm()
         _rebuild()
         return "timeout"
     except BaseException as e:  # noqa: BLE001
@@ -423,17 +520,30 @@ def run_caught(job, limit=ALARM_S):
 def _chunk(jobs):
     res = []
     for j in jobs:
-        out, detail = run_one(j)
+        if j[0] == "prog" and j[2][-1] == "callshape":
+            out, detail, got = run_one(j, measure="ints")
+            if out == "value" and got is not None:
+                detail = json.dumps(got)
+        else:
+            out, detail, _ = run_one(j)
         caught = ""
         if out == "error:ok" and j[0] in ("form", "prog"):
             caught = run_caught(j)
         res.append((out, detail, caught))
-    return res
+    return res, _take_lines()
 
 
 def _isolated(job):
-    out, detail = run_one(job, ISOLATED_S)
+    out, detail, _ = run_one(job, ISOLATED_S)
     return out, detail
+
+
+def _isolated_sized(job):
+    return run_one(job, ISOLATED_S, measure=True)
+
+
+def _isolated_caught(job):
+    return run_caught(job, ISOLATED_S)
 
 
 def _list_sites(_):
@@ -453,9 +563,37 @@ def make_sandbox():
     return sb
 
 
-def scaled_job(job):
+def scaled_job(job, level):
     kind, what, tags = job
-    return (kind, what, tuple("scaled-big" if t in HUGE_TAGS else t for t in tags))
+    return (kind, what, tuple(f"scaled:{HUGE_RANK[t] * level}" if t in HUGE_TAGS else t for t in tags))
+
+
+def huge_at(tags):
+    return tuple(i for i, t in enumerate(tags) if t in HUGE_TAGS)
+
+
+def proper(out):
+    return out in ("value", "error:ok")
+
+
+def all_proper(runs):
+    return len(runs) >= 2 and all(proper(r["out"]) for r in runs)
+
+
+def grows(runs):
+    """Natives_Trace!Grows"""
+    return (len(runs) >= 2 and all(r["out"] == "value" and r["size"] > 0 for r in runs)
+            and all(a["m"] < b["m"] and b["size"] >= GROWTH * a["size"] for a, b in zip(runs, runs[1:])))
+
+
+def scaled_ok(r, tags):
+    """Natives_Trace!ScaledOK for a result record"""
+    w = r.get("witness") or {"tags": [], "runs": []}
+    return (r["out"] in SLOW and bool(huge_at(tags)) and all_proper(r["scaled"])
+            and (grows(r["scaled"]) or (grows(w["runs"]) and huge_at(w["tags"]) == huge_at(tags))))
+
+
+SLOW = ("timeout", "host:MemoryError")
 
 
 class Sweep:
@@ -472,6 +610,8 @@ class Sweep:
         self.hanging = []         # cases that did not end in time (no huge int among the arguments), not yet re-run
         self.cut = False          # the time budget ran out on a tree that shows violations
         self.skipped = 0
+        self.lines = set()        # lines of nodes.py the cases executed (see _watch_lines)
+        self.proven = {}          # (site, positions of the huge ints) -> a case whose result grows with the stand-ins
 
     def close(self):
         self.pool.terminate()
@@ -484,20 +624,21 @@ class Sweep:
     def sites(self):
         return self.pool.apply(_list_sites, (0,))
 
-    def _alone(self, jobs):
+    def _alone(self, jobs, fn=None):
         if not jobs:
             return []
         if self.iso is None:
             self.iso = self.ctx.Pool(16, initializer=_init_worker, initargs=(self.sandbox,))
         self.evaluations += len(jobs)
-        return self.iso.map(_isolated, jobs, chunksize=1)
+        return self.iso.map(fn or _isolated, jobs, chunksize=1)
 
     def execute(self, jobs, chunk=250):
-        """jobs -> list of dicts {out, detail, caught, scaled}, same order.
-        A timeout is never believed at once: a case holding 2^70 is re-run with
-        10^4 in its place (work proportional to the magnitude of a number), any
-        other - and a scaled case that is slow too - is re-run alone with the
-        longer bound."""
+        """jobs -> list of dicts {out, detail, caught, scaled, witness}, same order.
+        A timeout is never believed at once.  A case holding a huge int is re-run with stand-ins of two
+        smaller magnitudes (`scaled` = their outcomes and result sizes; whether that excuses the case is
+        Natives_Trace!ScaledOK); any other - and a case the stand-ins do not excuse - is re-run alone with
+        the longer bound.  The same holds for the catch probe of a case (round 3: a probe that did not end
+        in time was reported as 'error-not-caught:timeout' without a second look)."""
         # neighbouring jobs (one site, one slow argument) go to different chunks: a run of
         # calls that each wait for the alarm would otherwise be served by a single worker
         # A tree on which many cases hang would keep the check busy for half an hour (2 s per case,
@@ -511,9 +652,10 @@ class Sweep:
         k = max(1, -(-len(jobs) // chunk))
         res = [dict(SKIPPED) for _ in jobs]
         parts = [jobs[c::k] for c in range(k)]
-        for c, r in enumerate(self.pool.imap(_chunk, parts)):
+        for c, (r, lines) in enumerate(self.pool.imap(_chunk, parts)):
+            self.lines.update(lines)
             for j, (o, d, ca) in enumerate(r):
-                res[c + j * k] = {"out": o, "detail": d, "caught": ca, "scaled": ""}
+                res[c + j * k] = {"out": o, "detail": d, "caught": ca, "scaled": [], "witness": None}
                 sus = suspicious(parts[c][j], o)
                 if sus == 2:
                     self.definite += 1
@@ -525,12 +667,18 @@ class Sweep:
                 break
         self.skipped += sum(1 for r in res if r["out"] == "skipped")
         self.evaluations += sum(1 + bool(r["caught"]) for r in res if r["out"] != "skipped")
-        slow = [i for i, r in enumerate(res) if r["out"] in ("timeout", "host:MemoryError")]
-        big = [i for i in slow if any(t in HUGE_TAGS for t in jobs[i][2])]
-        for i, (out, detail) in zip(big, self._alone([scaled_job(jobs[i]) for i in big])):
-            if out in ("value", "error:ok"):
-                res[i]["scaled"] = out
-        again = [i for i in slow if not res[i]["scaled"]]
+        slow = [i for i, r in enumerate(res) if r["out"] in SLOW]
+        big = [i for i in slow if huge_at(jobs[i][2])]
+        runs = self._alone([scaled_job(jobs[i], lv) for i in big for lv in LEVELS], _isolated_sized)
+        for n, i in enumerate(big):
+            mine = runs[n * len(LEVELS):(n + 1) * len(LEVELS)]
+            res[i]["scaled"] = [{"m": lv, "out": o, "size": sz} for lv, (o, _d, sz) in zip(LEVELS, mine)]
+            if grows(res[i]["scaled"]):
+                self.proven.setdefault((group_key(jobs[i]), huge_at(jobs[i][2])),
+                                       {"tags": list(jobs[i][2]), "runs": res[i]["scaled"]})
+        for i in big:
+            self.attach_witness(jobs[i], res[i])
+        again = [i for i in slow if not scaled_ok(res[i], jobs[i][2])]
         # Re-running hundreds of cases that really hang (10 s each) would take the check far beyond
         # its time limit on a defective tree.  Beyond MAX_ALONE cases the first REPS of every site
         # are re-run alone; where none of them ends either, the site's other cases are believed.
@@ -541,7 +689,7 @@ class Sweep:
         redo = dict(zip(reps, self._alone([jobs[i] for i in reps])))
         rest = []
         for g in groups.values():
-            ended = any(redo[i][0] not in ("timeout", "host:MemoryError") for i in g[:REPS])
+            ended = any(redo[i][0] not in SLOW for i in g[:REPS])
             if ended or len(again) <= MAX_ALONE:
                 rest.extend(g[REPS:])
             else:
@@ -550,7 +698,22 @@ class Sweep:
         redo.update(zip(rest, self._alone([jobs[i] for i in rest])))
         for i, (out, detail) in redo.items():
             res[i]["out"], res[i]["detail"] = out, detail
+            if out not in SLOW:
+                res[i]["scaled"], res[i]["witness"] = [], None       # it ended after all: nothing to excuse
+                if out == "error:ok" and jobs[i][0] in ("form", "prog"):
+                    res[i]["caught"] = "timeout"                      # probed below, alone
+        # catch probes that did not end in time: once more, alone, with the longer bound
+        late = [i for i, r in enumerate(res) if r["caught"] == "timeout"]
+        for i, c in zip(late, self._alone([jobs[i] for i in late], _isolated_caught)):
+            res[i]["caught"] = c
         return res
+
+    def attach_witness(self, job, r):
+        """a case whose stand-in runs end properly but show no growth of their own (they fail, or yield
+        something small) may point to a case of the same site, with the huge ints at the same positions,
+        whose result does grow"""
+        if r["out"] in SLOW and all_proper(r["scaled"]) and not grows(r["scaled"]):
+            r["witness"] = self.proven.get((group_key(job), huge_at(job[2])))
 
     def hangs_alone(self):
         """over budget: do the cases that did not end really hang?  (a handful would not have cost
@@ -564,13 +727,17 @@ class Sweep:
         if self.cut:
             return [""] * len(jobs)
         self.evaluations += len(jobs)
-        return self.pool.map(_caught_one, jobs, chunksize=20)
+        res = self.pool.map(_caught_one, jobs, chunksize=20)
+        late = [i for i, c in enumerate(res) if c == "timeout"]       # never believed at once either
+        for i, c in zip(late, self._alone([jobs[i] for i in late], _isolated_caught)):
+            res[i] = c
+        return res
 
 
 MAX_ALONE = 64
 REPS = 2
 BUDGET_S = {"quick": 150, "thorough": 1500}
-SKIPPED = {"out": "skipped", "detail": "", "caught": "", "scaled": ""}
+SKIPPED = {"out": "skipped", "detail": "", "caught": "", "scaled": [], "witness": None}
 
 
 def suspicious(job, out):
@@ -584,7 +751,7 @@ def suspicious(job, out):
 
 
 def group_key(job):
-    """the site of a job: the function, the form, the observer of a graph program"""
+    """the site of a job: the function (with the shape of the call), the form, the observer of a graph program"""
     return job[2][-1] if job[0] == "prog" else job[1]
 
 
@@ -596,10 +763,25 @@ def param_count(argnames):
     return 9 if any(a.endswith("...") for a in argnames) else len(argnames)
 
 
-def function_jobs(run, sites, rng, quick):
+def shapes_for(shapes, argnames):
+    """the calls FormsCall.tla marks `skips` for a function with these parameters: the canonical call for
+    every set of at most three parameters that no positional call binds -> lists of binders ('' / name)"""
+    named = [a for a in argnames if not a.endswith("...")]
+    rest = len(named) != len(argnames)
+    out = []
+    for sh in shapes:
+        if sh["skips"] and sh["n"] == len(named) and sh["rest"] == rest:
+            out.append(["" if b == 0 else named[b - 1] for b in sh["call"]])
+    return sorted(out, key=lambda c: (len(c), c))
+
+
+def function_jobs(run, sites, rng, quick, shapes):
     """-> jobs of the function sweep.  Arity 0 and 1: every site.  Arity 2 and
     3: one site per distinct function (the same native class / the same lambda
-    is bound under several names and in several environments)."""
+    is bound under several names and in several environments).
+    Round 3: every distinct function is also called in the shapes of FormsCall.tla that bind a set of
+    parameters no positional call reaches (`find_last(p0, p1, start = p2)`, `sorted(p0, key = p1)`): one
+    argument always, two and three after a probe (-> pending, see named_jobs)."""
     reps = {}
     for s in sorted(sites):
         reps.setdefault(tuple(map(str, sites[s][2])), s)
@@ -645,10 +827,70 @@ def function_jobs(run, sites, rng, quick):
     if quick and len(three) > QUICK_ARITY3:
         three = rng.sample(three, QUICK_ARITY3)
     jobs.extend(three)
-    return jobs, reps, population
+    # ---- round 3: arguments bound by name
+    pending, wide_named, nshapes = [], [], 0
+    for s in reps:
+        for names in shapes_for(shapes, sites[s][1]):
+            what = shaped_site(s, names)
+            nshapes += 1
+            if len(names) == 1:
+                jobs.extend(("fn", what, (t,)) for t in tagset(s))
+            else:
+                # two and three arguments: first the same value in all places; a shape that leaves a required
+                # parameter out answers every one of them with 'Missing argument' and is not multiplied out
+                jobs.extend(("fn", what, (t,) * len(names)) for t in tagset(s))
+                pending.append((what, tagset(s), len(names)))
+            if len(names) >= 2:
+                # the wide pool at each place, the other places filled from three plain values
+                for pos_ in range(len(names)):
+                    for x in EXTRA_TAGS:
+                        for b_ in ["l2", "sa", "i2"]:
+                            wide_named.append(("fn", what, tuple(x if q == pos_ else b_ for q in range(len(names)))))
+    if quick and len(wide_named) > QUICK_NAMED_WIDE:
+        wide_named = rng.sample(wide_named, QUICK_NAMED_WIDE)
+    jobs.extend(wide_named)
+    return jobs, reps, population, pending, nshapes
 
 
+def named_jobs(pending, fjobs, fres, rng, quick):
+    """the two- and three-argument calls by name, for the shapes whose probe shows that they reach the
+    function's body (some call with the same value in all places was not answered with 'Missing argument');
+    two arguments exhaustively, three exhaustively in the thorough tier"""
+    missing = {}
+    for job, r in zip(fjobs, fres):
+        if "(" in job[1] and len(job[2]) >= 2 and len(set(job[2])) == 1:
+            missing.setdefault(job[1], []).append(r["out"] == "error:ok" and r["detail"] == "missing")
+    two, three, live = [], [], {2: 0, 3: 0}
+    for what, tags, k in pending:
+        if missing.get(what) and all(missing[what]):
+            continue
+        live[k] += 1
+        (two if k == 2 else three).extend(("fn", what, t) for t in itertools.product(tags, repeat=k)
+                                          if len(set(t)) > 1)
+    population = len(three)
+    if quick and len(three) > QUICK_NAMED3:
+        three = rng.sample(three, QUICK_NAMED3)
+    return two + three, live, population
+
+
+QUICK_NAMED3 = 20000
+QUICK_NAMED_WIDE = 6000
 QUICK_ARITY3 = 40000
+
+
+def guard_sites():
+    """line -> class of every `raise CklRuntimeError` statement of nodes.py (the guards of the evaluation nodes)"""
+    sites, cls = {}, ""
+    try:
+        with open(os.path.join(REPO, "src", "ckl", "nodes.py")) as f:
+            for n, line in enumerate(f, 1):
+                if line.startswith(("class ", "def ")):
+                    cls = line.split()[1].split("(")[0].rstrip(":")
+                if line.strip().startswith("raise CklRuntimeError"):
+                    sites[n] = cls
+    except OSError:
+        pass
+    return sites
 
 
 def graph_cases(run, res):
@@ -663,6 +905,33 @@ def graph_cases(run, res):
     if any(c["pred"] not in ("value", "error", "any") for c in cases.values()):
         raise MachineryError("FormsGraph.tla exported a stuck case although Total held")
     return [cases[t] for t in sorted(cases)]
+
+
+def call_shapes(run, res):
+    """the decided calls of FormsCall.tla, one per (signature, call)"""
+    run.add_tlc(res, "FormsCall (argument binding: positional, by name, rest; Agrees, Total, Placed, CanonBinds)")
+    seen = {}
+    for c in res.records("SHAPE"):
+        seen.setdefault((c["n"], c["rest"], tuple(c["call"])), c)
+    if not seen:
+        raise MachineryError("TLC exported no call shapes")
+    return [seen[k] for k in sorted(seen)]
+
+
+def call_text(sh):
+    """the probe: a function whose parameters all have the default -1 returns what they hold; the j-th
+    argument of the call is the int 10 * j (FormsCallOps!CallObserved)"""
+    n = sh["n"]
+    params = [f"a{p} = -1" for p in range(1, n + 1)] + (["r..."] if sh["rest"] else [])
+    body = [f"a{p}" for p in range(1, n + 1)] + (["...r..."] if sh["rest"] else [])
+    args = []
+    for j, b in enumerate(sh["call"], 1):
+        args.append(f"{10 * j}" if b == 0 else (f"a{b} = {10 * j}" if b <= n else f"zz = {10 * j}"))
+    return f"(fn({', '.join(params)}) [{', '.join(body)}])({', '.join(args)})"
+
+
+def call_tags(sh):
+    return (f"n{sh['n']}{'r' if sh['rest'] else ''}", ",".join(map(str, sh["call"])), "callshape")
 
 
 def graph_tags(c):
@@ -717,9 +986,21 @@ def validate(run, events, label, parts=3):
     return verdicts
 
 
+NO_WITNESS = {"tags": [], "runs": []}
+
+
 def event(site, form, tags, r, n=1):
     return {"site": site, "form": form, "tags": list(tags), "n": n, "out": r["out"],
-            "caught": r["caught"], "scaled": r["scaled"]}
+            "caught": r["caught"], "scaled": r["scaled"], "witness": r.get("witness") or NO_WITNESS}
+
+
+def scaled_class(r, tags):
+    """how the stand-in runs of a case ended (function events are aggregated by it)"""
+    if not r["scaled"]:
+        return ""
+    if scaled_ok(r, tags):
+        return "grows" if grows(r["scaled"]) else "witnessed"
+    return "unexcused"
 
 
 def report(run, res, events, cases):
@@ -742,7 +1023,7 @@ def report(run, res, events, cases):
                       cases[i]["case"])
     for dr in res.records("DRIFT"):
         e = events[dr["l"] - 1]
-        run.drift("prediction:" + (e["site"] if e["form"] == "graph" else e["form"]),
+        run.drift("prediction:" + (e["site"] if e["form"] in ("graph", "call") else e["form"]),
                   {"form": e["form"], "tags": e["tags"], "predicted": dr["pred"], "observed": e["out"]})
     return bad
 
@@ -752,11 +1033,13 @@ def run(run):
     rng = random.Random(run.seed)
     t0 = time.time()
     # ---- binding A: the cases TLC generates from Forms.tla
-    with concurrent.futures.ThreadPoolExecutor(2) as ex:      # the two models side by side
+    with concurrent.futures.ThreadPoolExecutor(2) as ex:      # the models side by side
         graph_run = ex.submit(tlc, "FormsGraph", "FormsGraph_quick" if quick else "FormsGraph_thorough",
                               coverage=False, timeout=3000)
+        call_run = ex.submit(tlc, "FormsCall", "FormsCall", coverage=True, timeout=3000)
         forms_run = tlc("Forms", "Forms_quick" if quick else "Forms_thorough", coverage=True, timeout=3000)
         graph_run = graph_run.result()
+        call_run = call_run.result()
     run.add_tlc(forms_run, "Forms (every form applied to every pool tuple; NotStuck)")
     forms = forms_run.records("FORMS")[0]
     pool = forms_run.records("POOL")[0]
@@ -830,11 +1113,34 @@ def run(run):
             gstats["stale_key"] += bool(c["stale"])
             o = gstats["observers"].setdefault(c["obs"]["name"], {})
             o[r["out"]] = o.get(r["out"], 0) + 1
+        # ---- round 3: the calls of FormsCall.tla on a probe function (what did each parameter receive?)
+        shapes = call_shapes(run, call_run)
+        cjobs = [("prog", call_text(sh), call_tags(sh)) for sh in shapes]
+        for sh, job, r in zip(shapes, cjobs, sw.execute(cjobs)):
+            if r["out"] == "skipped":
+                continue
+            obs = None
+            if r["out"] == "value" and r["detail"].startswith("["):
+                try:
+                    obs = json.loads(r["detail"])
+                except ValueError:
+                    obs = None
+                r = dict(r, detail="")
+            c = {"n": sh["n"], "rest": sh["rest"], "call": sh["call"], "seen": obs is not None, "obs": obs or []}
+            ev = event("call:" + job[2][0], "call", job[2], r)
+            ev["c"] = c
+            events.append(ev)
+            meta.append({"detail": r["detail"],
+                         "case": {"kind": "prog", "what": job[1], "tags": list(job[2]), "form": "call", "c": c}})
         nform = len(events)
+        lines_a = set(sw.lines)          # what the forms, the forms on the wide pool and the graph programs executed
         t1 = time.time()
         # ---- binding B: the function sweep over the live environments
-        fjobs, reps, population3 = function_jobs(run, sites, rng, quick)
+        fjobs, reps, population3, pending, nshapes = function_jobs(run, sites, rng, quick, shapes)
         gres = sw.execute(fjobs)
+        njobs, live, named3_population = named_jobs(pending, fjobs, gres, rng, quick)
+        gres = gres + sw.execute(njobs)
+        fjobs = fjobs + njobs
         groups = {}
         trivial = 0
         for job, r in zip(fjobs, gres):
@@ -842,7 +1148,8 @@ def run(run):
                 continue
             if r["detail"] == "too-many":
                 trivial += 1
-            key = (job[1], len(job[2]), r["out"], r["scaled"])
+            sw.attach_witness(job, r)        # (a case of the same site proven later in the same sweep)
+            key = (job[1], len(job[2]), r["out"], scaled_class(r, job[2]))
             g = groups.get(key)
             if g is None:
                 groups[key] = [job, r, 1]
@@ -861,6 +1168,11 @@ def run(run):
     finally:
         sw.close()
     t2 = time.time()
+    # a case whose stand-in runs show no growth of their own may be excused by a case of its site that was
+    # proven in a later sweep (the same form on the wide pool)
+    for e, m in zip(events, meta):
+        if e["out"] in SLOW and all_proper(e["scaled"]) and not grows(e["scaled"]) and not e["witness"]["runs"]:
+            e["witness"] = sw.proven.get((m["case"]["what"], huge_at(e["tags"]))) or NO_WITNESS
     res = validate(run, events, "Natives_Trace (recorded outcomes of forms and functions)")
     bad = report(run, res, events, meta)
     if cut:
@@ -872,13 +1184,14 @@ def run(run):
     # cross-check of the machinery: TLC must reject exactly what the grammar of outcomes forbids
     expect_bad = sum(1 for e in events if not (
         e["out"] == "value" or (e["out"] == "error:ok" and e["caught"] in ("", "caught", "not-raised"))
-        or (e["out"] in ("timeout", "host:MemoryError") and e["scaled"] in ("value", "error:ok"))))
+        or scaled_ok(e, e["tags"])))
     if expect_bad != len(res.records("BAD")):
         raise MachineryError(f"Natives_Trace rejected {len(res.records('BAD'))} events, expected {expect_bad}")
     for e in events:
         if e["scaled"]:
-            run.drift("magnitude:" + e["site"], {"site": e["site"], "tags": e["tags"], "outcome": e["out"],
-                                                  "with_10^4_for_2^70": e["scaled"]})
+            run.drift(("magnitude:" if scaled_ok(e, e["tags"]) else "magnitude-unexcused:") + e["site"],
+                      {"site": e["site"], "tags": e["tags"], "outcome": e["out"], "stand_ins": e["scaled"],
+                       "witness": e["witness"]["tags"]})
     outcomes = {}
     for e in events:
         outcomes[e["out"]] = outcomes.get(e["out"], 0) + e["n"]
@@ -896,12 +1209,29 @@ def run(run):
                        "arguments are bound; evaluations also counts the catch probes and the re-runs")
     run.cov["exhaustive"] = not quick
     run.cov["forms"] = len(forms)
+    gs = guard_sites()
+    if lines_a and gs:
+        run.cov["guard_sites"] = {
+            "what": "`raise CklRuntimeError` statements of nodes.py executed by the cases of binding A "
+                    "(forms, forms on the wide pool, graph programs, call shapes); an unreached guard is one "
+                    "the check cannot miss",
+            "raise_sites": len(gs), "reached": sum(1 for n in gs if n in lines_a),
+            "unreached": [f"{gs[n]}:{n}" for n in sorted(gs) if n not in lines_a]}
     run.cov["graph_programs"] = gstats
     run.cov["form_cases"] = len(form_jobs)
     run.cov["function_sites"] = len(sites)
     run.cov["distinct_functions"] = len(reps)
     run.cov["function_calls"] = len(fjobs)
     run.cov["arity3_population"] = population3
+    run.cov["call_shapes"] = {"decided_calls": len(shapes), "binding": sum(1 for sh in shapes if sh["err"] == ""),
+                              "skipping": sum(1 for sh in shapes if sh["skips"]),
+                              "function_shapes": nshapes,
+                              "two_argument_shapes": sum(1 for p in pending if p[2] == 2),
+                              "two_argument_shapes_reaching_the_body": live[2],
+                              "three_argument_shapes": sum(1 for p in pending if p[2] == 3),
+                              "three_argument_shapes_reaching_the_body": live[3],
+                              "named3_population": named3_population,
+                              "calls_by_name": sum(1 for j in fjobs if "(" in j[1])}
     run.cov["outcomes"] = outcomes
     run.cov["trace_events"] = len(events)
     run.cov["rejected_events"] = len(res.records("BAD"))
@@ -909,7 +1239,8 @@ def run(run):
     run.cov["phase_seconds"] = {"forms": round(t1 - t0, 1), "functions": round(t2 - t1, 1),
                                 "trace_validation": round(time.time() - t2, 1)}
     run.cov["bounds"] = {
-        "pool": POOL_TAGS, "sandbox_pool": SANDBOX_TAGS, "wide_pool": EXTRA_SRC, "alarm_s": ALARM_S, "isolated_s": ISOLATED_S,
+        "pool": POOL_TAGS, "sandbox_pool": SANDBOX_TAGS, "wide_pool": EXTRA_SRC, "alarm_cpu_s": ALARM_S, "isolated_cpu_s": ISOLATED_S,
+        "wall_factor": WALL_FACTOR, "stand_in_levels": LEVELS, "growth": GROWTH,
         "forms_cfg": "Forms_quick" if quick else "Forms_thorough",
         "graph_cfg": "FormsGraph_quick" if quick else "FormsGraph_thorough",
         "round2_pool": sorted(GRAPH_SRC), "budget_s": BUDGET_S, "max_alone": MAX_ALONE,
@@ -920,10 +1251,21 @@ def run(run):
     run.assumptions += [
         "the spec models the syntactic forms (Forms.tla); for the functions it contributes the enumeration "
         "discipline and the grammar of allowed outcomes only: the decision there is the recorded exception class",
-        "a case holding 2^70 that does not finish (or exhausts memory) is re-run with 10^4 in its place; if that "
-        "yields a value or a runtime error the case is counted as work proportional to a number's magnitude "
-        "(range(2^70), pow(2, 2^70)), reported under drift 'magnitude:*', not as non-termination",
-        "function arguments are passed positionally; named-argument combinations are not enumerated",
+        "a case holding a huge int (2^70, 10^400, 10^5000) that does not finish (or exhausts memory) is re-run with "
+        f"stand-ins of two magnitudes ({LEVELS[0]} and {LEVELS[1]}, times 1 / 2 / 3 for the three ints); it is excused "
+        f"only if both end properly and the size of the result grows with the stand-in (at least {GROWTH}-fold: "
+        "range(2^70), pow(2, 2^70) - a result no implementation writes down faster), or if another case of the same "
+        "site with the huge ints at the same argument positions shows that growth; reported under drift "
+        "'magnitude:*'.  Every other case that does not end is a violation (rendering 10^5000, counting years up to 2^70)",
+        "the time bound of a case is processor time of the worker (2 s; 10 s when re-run alone), with a wall-clock "
+        "backstop 20 times as long; a catch probe that does not end in time is re-run alone like a case",
+        "round 3: FormsCall.tla models argument binding (positional, by name, rest parameter; Args.setArgs); its "
+        "decided calls (MaxParams 5, MaxArgs 3) are run on a probe function and the recorded bindings compared by "
+        "Natives_Trace; every distinct function is called in each canonical shape that binds a set of parameters "
+        "no positional call reaches: one argument always; two and three arguments when a probe (the same value in all places) shows that "
+        "the shape reaches the function's body - two exhaustively over the pool, three exhaustively in the thorough "
+        f"tier and as a seeded sample of {QUICK_NAMED3} in the quick tier; the wide pool at "
+        f"each place of a shape (quick: seeded sample of {QUICK_NAMED_WIDE})",
         "arity 2 and 3 are run on one site per distinct function (same native class / same lambda source position)",
         "non-secure natives run in a private sandbox directory with PATH holding only `true` and `echo`; "
         "their extra pool values are 'true', 'f.txt' (a file), 'd' (a directory), ['x']",
@@ -936,7 +1278,7 @@ def run(run):
         "away and meet additional partners (a date and a decimal, or a list, a set and a map)",
         "FormsGraph.tla: NCells collections, at most MaxSteps mutating statements, one observer "
         "(quick 2 / 2, thorough 2 / 3); for ==, < and `in` the model allows both outcome classes",
-        "a case that does not end within 2 s is re-run alone with 10 s; beyond 64 such cases only the first two "
+        "a case that does not end within 2 s of processor time is re-run alone with 10 s; beyond 64 such cases only the first two "
         "of every site are re-run and, where neither ends, the site's others are believed; once the time budget "
         "(quick 150 s, thorough 1500 s) is spent on a tree already known to violate the property the remaining "
         "cases are not executed (coverage.incomplete) - such a run never exits 0",
@@ -948,7 +1290,19 @@ def run(run):
     ]
     # ---- evaluation inside the read-eval-print loop: printing a result or an error must not raise either
     from . import repl
-    nrepl = repl.eval_sessions(lambda key, what, case: run.violation(key, what, case))
+
+    def repl_report(key, what, case):
+        # the session has a wall-clock alarm of its own; on a crowded machine it can end a session whose
+        # lines are fine: a line reported that way is given once more, alone, with a long bound
+        if "_Alarm" in what:
+            try:
+                _p, _o, exc = repl.session(case["lines"] + ["exit"], secure=case.get("secure", True), limit=120)
+            except Exception:  # noqa: BLE001
+                exc = True
+            if exc is None:
+                return
+        run.violation(key, what, case)
+    nrepl = repl.eval_sessions(repl_report)
     run.cov["repl_lines_evaluated"] = nrepl
     run.cov["evaluations"] += nrepl
 
@@ -971,11 +1325,16 @@ def replay(run, case):
     finally:
         sw.close()
     site = ("form:" + case["form"]) if case["kind"] == "form" else case["what"]
-    if case["kind"] == "prog":
+    if case["kind"] == "prog" and "g" in case:
         site = "graph:" + case["g"]["obs"]["name"]
+    elif case["kind"] == "prog":
+        site = "call:" + case["tags"][0]
+        r = dict(r, detail="")
     events = [event(site, case.get("form", ""), job[2], r)]
-    if case["kind"] == "prog":
+    if case["kind"] == "prog" and "g" in case:
         events[0]["g"] = case["g"]
+    elif case["kind"] == "prog":
+        events[0]["c"] = dict(case["c"], seen=False, obs=[])     # the verdict is the outcome; no binding is compared
     res = validate(run, events, "replay")
     report(run, res, events, [{"detail": r["detail"], "case": case}])
     run.sample({"replayed": events[0]})
